@@ -367,6 +367,42 @@ func c13One(r *Run, pool *Pool, c c13Case, cfgSeed uint64, st *c13Stats) {
 					}
 				}
 			}
+			if sig == "reject:"+normErr(firstErr(res.Errors))+":"+goal {
+				// two recorded causes in one input (inputs are also pairs of seeds): none of the single rewrites above makes
+				// esbuild accept it. Remove every recorded cause that occurs, one after the other; if esbuild accepts the result
+				// (or one of its await variants), the rejection is made of recorded causes only and is filed under the first one.
+				base, first := c.Src, ""
+				apply := func(name, s2 string) {
+					if s2 != base {
+						base = s2
+						if first == "" {
+							first = name
+						}
+					}
+				}
+				if goal == "script-only" {
+					apply("legacy-decimal-with-fraction", reLegacyDecimalFraction.ReplaceAllString(base, "${1}9${2}"))
+				}
+				apply("non-directive-use-strict-string", strings.NewReplacer("use\\x20strict", "use_strict", "use strict\\\n", "use_strict", "('use strict')", "('use_strict')").Replace(base))
+				apply("asi-after-postfix-update-before-paren", reASIPostfix.ReplaceAllString(base, "${1};\n${2}"))
+				apply("let-arrow-parameter-at-statement-start", reLetArrow.ReplaceAllString(base, "${1}(${2})=>"))
+				accepted := func(s2 string) bool {
+					r2, _ := transformSafe(s2, api.TransformOptions{Loader: api.LoaderJS})
+					return len(r2.Errors) == 0
+				}
+				if first != "" {
+					if accepted(base) {
+						sig = "reject:" + first
+					} else {
+						for _, s2 := range awaitVariants(base) {
+							if ref2, err := refGoals(pool, s2, []string{"script"}); err == nil && bothAccept(ref2["script"]) && accepted(s2) {
+								sig = "reject:" + first
+								break
+							}
+						}
+					}
+				}
+			}
 			r.Violation(sig, fmt.Sprintf("esbuild rejects a program that V8 and acorn both accept (%s): %q → %s", goal, trunc(c.Src, 200), firstErr(res.Errors)),
 				map[string]interface{}{"kind": "acceptance", "input": c, "goal": goal, "errors": msgTexts(res.Errors)})
 		}
